@@ -187,18 +187,30 @@ impl<T> RcInner<T> {
     pub(crate) fn increment_strong(&self) -> bool {
         #[cfg(feature = "circ_verif")]
         crate::verif::yp(crate::verif::site::INC_STRONG_FA1, &self.state as *const AtomicU64 as usize);
-        let val = State::from_raw(self.state.fetch_add(COUNT, Ordering::SeqCst));
-        if val.destructed() {
-            return false;
-        }
-        if val.strong() == 0 {
-            // The previous fetch_add created a permission to run decrement again.
-            // Now create an actual reference.
+        let mut old = State::from_raw(self.state.load(Ordering::SeqCst));
+        loop {
+            if old.destructed() {
+                return false;
+            }
+            // An increment from zero adds two at once: the permission for the pending destruction
+            // attempt to run decrement again, and the actual reference. Adding them in two steps
+            // would let that attempt run in between, consume the permission and re-arm itself;
+            // the reference would then be counted without a permission, and the next attempt
+            // would take it for one and destruct the object under its owner (or, if the owner
+            // releases it first, two attempts would be pending and both would destruct).
+            let add = if old.strong() == 0 { 2 } else { 1 };
             #[cfg(feature = "circ_verif")]
             crate::verif::yp(crate::verif::site::INC_STRONG_FA2, &self.state as *const AtomicU64 as usize);
-            self.state.fetch_add(COUNT, Ordering::SeqCst);
+            match self.state.compare_exchange(
+                old.as_raw(),
+                old.add_strong(add).as_raw(),
+                Ordering::SeqCst,
+                Ordering::SeqCst,
+            ) {
+                Ok(_) => return true,
+                Err(curr) => old = State::from_raw(curr),
+            }
         }
-        true
     }
 
     #[inline]
